@@ -30,6 +30,9 @@ CONFIGS = {
                    cfg(SUB_D=1, SUB_G=0, SUB_S=1, Variants="{1}", MaxBlocks=4, MaxOps=5, Acts='{"Register", "Add", "Mine", "Sub"}')),
     "MC_Slots": (cfg(SUB_S=3, Garbled="{1, 3, 5}", MaxBlocks=2, MaxOps=4, Acts='{"Register", "Add", "Mine", "Sub"}'),
                  cfg(SUB_S=3, Garbled="{1, 2, 3, 5}", MaxBlocks=2, MaxOps=5, Acts='{"Register", "Add", "Mine", "Sub"}')),
+    # restarts between any two actions (C03 at the design level)
+    "MC_Restart": (cfg(Users="{1}", MaxBlocks=4, MaxOps=4, Acts='{"Register", "Add", "Mine", "Get", "Restart"}'),
+                   cfg(MaxBlocks=4, MaxOps=5, Acts='{"Register", "Add", "Mine", "Get", "Sub", "Restart"}')),
     "MC_Auth": (cfg(MaxBlocks=1, MaxOps=4, SUB_D=1, Variants="{1}", Acts='{"Register", "Add", "Mine", "Get", "Sub", "BadSig"}'),
                 cfg(MaxBlocks=2, MaxOps=5, SUB_D=1, Variants="{1}", Acts='{"Register", "Add", "Mine", "Get", "Sub", "BadSig"}')),
 }
@@ -43,7 +46,7 @@ BY_PROPERTY = {
     "C08": ["MC_Slots", "MC_Auth"],
     "C09": ["MC_Expiry", "MC_Expiry0"],
     "C11": ["MC_Breach", "MC_Reorg"],
-    "C03": ["MC_Breach"],
+    "C03": ["MC_Restart", "MC_Breach"],
     "C12": ["MC_Breach"],
 }
 
